@@ -1,0 +1,16 @@
+//go:build !verif
+
+package collection
+
+import (
+	syn "sync"
+)
+
+func verifLock(m *syn.Mutex)   {}
+func verifUnlock(m *syn.Mutex) {}
+func verifSend(c *chan bool)   {}
+func verifRecv(c *chan bool)   {}
+func verifClose(c *chan bool)  {}
+func verifSpawn()              {}
+func verifEnter()              {}
+func verifExit()               {}
